@@ -471,12 +471,12 @@ func generatePropertyGet(file *jen.File, serviceName string,
 			"github.com/lugu/qiloop/type/value",
 			"String",
 		).Params(jen.Lit(property.Name)),
-		jen.Id(`value, err := p.Property(name)`),
+		jen.Id(`val, err := p.Property(name)`),
 		jen.Id(`if err != nil {
 		    return ret, fmt.Errorf("get property: %s", err)
 		}`),
 		jen.Var().Id("buf").Qual("bytes", "Buffer"),
-		jen.Id(`err = value.Write(&buf)`),
+		jen.Id(`err = val.Write(&buf)`),
 		jen.Id(`if err != nil {
 		    return ret, fmt.Errorf("read response: %s", err)
 		}`),
